@@ -2349,6 +2349,13 @@ void QRDecomposition(matrix *m, matrix *Q, matrix *R)
   NewMatrix(&P, v->size, v->size);
   NewMatrix(&PQ, a->row, a->row);
 
+  /* Q starts as the identity (a single-row input needs no reflection at all) */
+  ResizeMatrix(Q, m->row, m->row);
+  for(i = 0; i < Q->row; i++){
+    for(j = 0; j < Q->col; j++)
+      Q->data[i][j] = (i == j) ? 1.f : 0.f;
+  }
+
   for(k = 0; k < m->col && k < m->row - 1; k++){
     QRMatrixVectNorm(a, k, d);
 
@@ -2384,14 +2391,14 @@ void QRDecomposition(matrix *m, matrix *Q, matrix *R)
     MatrixSet(a1, +0.f);
     MatrixDotProduct(P, a, a1);
 
-    if(k == 0){
-      MatrixCopy(P, &Q);
+    /* accumulate into the caller's matrix: MatrixCopy(.., &Q) on the by-value pointer
+     * may free and replace the matrix the caller still holds */
+    MatrixDotProduct(P, Q, PQ);
+    for(i = 0; i < Q->row; i++){
+      for(j = 0; j < Q->col; j++)
+        Q->data[i][j] = PQ->data[i][j];
     }
-    else{
-      MatrixDotProduct(P, Q, PQ);
-      MatrixCopy(PQ, &Q);
-      MatrixSet(PQ, +0.f);
-    }
+    MatrixSet(PQ, +0.f);
 
     MatrixCopy(a1, &a);
     MatrixSet(P, +0.f);
